@@ -4,17 +4,11 @@ import json, os
 VERIF = os.path.dirname(os.path.dirname(os.path.abspath(__file__)))
 ALL = ["C%02d" % i for i in range(1, 21)]
 
-CHECKS = {
- "C12": dict(
-  text="Lean 4 theorems over the path model (put_get, put_frame, put_self, get_append, parse∘print of reference paths in every notation, "
-       "error-kind totality) for all documents, paths and values; the model is tied to state_engine_paths.py on every run by differential "
-       "execution of apply_resultpath / apply_jsonpath / apply_path (exhaustive small documents x paths x result kinds, seeded random larger "
-       "ones) and by evaluating the laws on the implementation's own outputs (read-back, frame, finite tree, no mutation on read).",
-  note="Trusted: Lean kernel; axioms ⊆ {propext, Classical.choice, Quot.sound}; the jsonpath library outside definite paths is not modelled; "
-       "model fidelity is established only on the explored inputs; floats are outside the model.",
-  technique="Lean 4 proof (induction over paths) + differential correspondence with state_engine_paths.py",
-  design="§5 C12"),
-}
+CHECKS = {}
+for fn in sorted(os.listdir(os.path.join(VERIF, "harness", "manifest"))):
+    if fn.endswith(".json"):
+        with open(os.path.join(VERIF, "harness", "manifest", fn)) as f:
+            CHECKS[fn[:-5]] = json.load(f)
 
 def main():
     checks = []
